@@ -184,16 +184,51 @@ class Converter:
         return n1 * d2 + n2 * d1, self._dmul(d1, d2)
 
 
+def _reduce_sqrt(cv, num, nonneg):
+    """rewrite sqrt(x)^2 -> x in the numerator polynomial (records x >= 0 as a side condition)"""
+    for _ in range(8):
+        sq = {i: t for i, t in enumerate(cv.atom_terms) if z3.is_app(t) and t.decl().name() == "sqrt" and t.num_args() == 1}
+        if not sq:
+            return num
+        changed = False
+        out = Poly()
+        for m, c in num.t.items():
+            hit = next(((v, e) for v, e in m if v in sq and e >= 2), None)
+            if hit is None:
+                out = out + Poly({m: c})
+                continue
+            v, e = hit
+            arg = sq[v].arg(0)
+            nonneg[arg.get_id()] = arg
+            an, ad = cv.conv(arg)
+            if not (ad.is_const() and ad.const_value() == 1):
+                return num  # rational radicand: leave to the SMT solver
+            rest = tuple((vv, ee) if vv != v else (vv, ee - 2) for vv, ee in m)
+            rest = tuple((vv, ee) for vv, ee in rest if ee > 0)
+            out = out + Poly({rest: c}) * an
+            changed = True
+        num = out
+        if not changed:
+            break
+    return num
+
+
 def identity(lhs, rhs):
-    """-> (holds: bool, divisors: list of z3 terms that must be non-zero)"""
+    """-> (holds: bool, side conditions: list of z3 terms d with obligation d != 0, or (x, '>=0'))"""
     cv = Converter()
+    nonneg = {}
     try:
         n1, d1 = cv.conv(lhs)
         n2, d2 = cv.conv(rhs)
         num = n1 * d2 - n2 * d1
+        if not num.is_zero():
+            num = _reduce_sqrt(cv, num, nonneg)
     except TooBig:
         return False, []
-    return num.is_zero(), list(cv.divisors.values())
+    cv.nonneg = nonneg
+    side = list(cv.divisors.values())
+    identity.last_nonneg = list(nonneg.values())
+    return num.is_zero(), side
 
 
 def split_equalities(goal):
